@@ -46,9 +46,12 @@ namespace
     {
       auto ta = va.get_type ();
       auto tb = vb.get_type ();
-      if (ta < tb)
+      // N.B.: VA is TOS, i.e. the right-hand operand.  Values of different
+      // types are ordered by type, the same way as value_seq::cmp and
+      // stack comparison order them.
+      if (tb < ta)
 	return pred_result (want == cmp_result::less);
-      else if (tb < ta)
+      else if (ta < tb)
 	return pred_result (want == cmp_result::greater);
     }
 
